@@ -114,6 +114,9 @@ class ModelBackend(object):
     def set_option(self, inst, name, value):
         pass
 
+    def aio_call(self, inst):
+        pass
+
     def result(self, val):
         raise ModelResult(val)
 
